@@ -1,6 +1,6 @@
 (* Property C14 — statements only.  Each is closed by [exact] of a lemma proved in XPathLitproof*.v. *)
 From Coq Require Import List NArith Bool. Import ListNotations.
-Require Import XPathLit XPathLitproof XPathLitproof2 XPathLitproof3 XPathLitproof4 XPathLitproof5.
+Require Import XPathLit XPathLitproof XPathLitproof2 XPathLitproof3 XPathLitproof4 XPathLitproof5 XPathLitproof6.
 Open Scope N_scope.
 
 (* The full statement, for the quoting function of the repaired code: whatever the identifier contains, the text
@@ -91,6 +91,32 @@ Example C14_query_skeleton_general_example :
   lex LOut [] post = Some [TOther [93;91;64;102;61]; TStr [112]; TOther [93]] /\
   skeleton (pre ++ quote [97;34;98;39;99] ++ post)
   = Some [TOther [120;91;64;110;61]; TStr [97;34;98;39;99]; TOther [93;91;64;102;61]; TStr [112]; TOther [93]].
+Proof. repeat split. Qed.
+
+(* Unions.  [covered v toks]: every union branch of the query (at every parenthesis level) carries a predicate with
+   the string token v, so no node can be selected without its attribute being compared with the identifier.
+   With the predicate written on both branches this holds for every identifier; *)
+Theorem C14_union_both_branches_covered : forall b1 b2 a v : str,
+  plainb b1 = true -> plainb b2 = true -> plainb a = true ->
+  option_map (covered v) (skeleton (b1 ++ pred a v ++ [PIPE] ++ b2 ++ pred a v)) = Some true.
+Proof. exact union_both_covered. Qed.
+Print Assumptions C14_union_both_branches_covered.
+
+(* with the predicate appended once to the text of a union (what make_xpath_query does to a query_string that is a
+   union) the first branch is unconstrained, for every identifier: refuted shape. *)
+Theorem C14_union_last_branch_only_refuted : forall b1 b2 a v : str,
+  plainb b1 = true -> plainb b2 = true -> plainb a = true ->
+  option_map (covered v) (skeleton (b1 ++ [PIPE] ++ b2 ++ pred a v)) = Some false.
+Proof. exact union_last_only_not_covered. Qed.
+Print Assumptions C14_union_last_branch_only_refuted.
+
+(* hypotheses inhabited; and the wrapped forms (q)[1] built by get_element / a position argument:
+     (d::m-s[@n=Q] | d::m[@n=Q])[1]  is covered,   (d::m | d::m-s[@n=Q])[1]  is not *)
+Example C14_union_examples :
+  let b1 := [100;58;58;109;45;115] in let b2 := [100;58;58;109] in let a := [110] in let v := [97;34;98;39;99] in
+  plainb b1 = true /\ plainb b2 = true /\ plainb a = true /\
+  option_map (covered v) (skeleton ([LPAR] ++ b1 ++ pred a v ++ [PIPE] ++ b2 ++ pred a v ++ [RPAR;LBRA;49;RBRA])) = Some true /\
+  option_map (covered v) (skeleton ([LPAR] ++ b2 ++ [PIPE] ++ b1 ++ pred a v ++ [RPAR;LBRA;49;RBRA])) = Some false.
 Proof. repeat split. Qed.
 
 (* the pinned code: pasting between double quotes *)
